@@ -21,13 +21,17 @@ pub fn run(ctx: &mut Ctx, prop: &str) {
         "C01" => all(ctx, prop, c01_case),
         "C02" => all(ctx, prop, c02_case),
         "C03" => {
+            crate::props_c13::brakedown_structure(ctx, prop);
             all(ctx, prop, c03_case);
             if std::env::var("PCV_LINCODE_PROBE").is_ok() {
                 probe_nv0(ctx);
             }
         }
         "C08" => all(ctx, prop, c08_case),
-        "C09" => c09(ctx),
+        "C09" => {
+            c09(ctx);
+            crate::props_c13::brakedown_structure(ctx, prop);
+        }
         "C10" => all(ctx, prop, c10_case),
         "C11" => {
             all(ctx, prop, c11_case);
